@@ -10,7 +10,7 @@ one() {
   al=""
   plist=$(jq -r '.properties[]' $v/meta.json); [ "$MODE" = all ] && plist=$(/verif/bin/sidecheck -list)
   for p in $plist; do
-    o=$(/verif/bin/sidecheck -property $p -dir $t/repo -verif $t/verif 2>&1)
+    o=$(${SIDECHECK:-/verif/bin/sidecheck} -property $p -dir $t/repo -verif $t/verif 2>&1)
     if ! echo "$o" | grep -q " tier="; then al="$al $p:[CHECKER-ERROR]"; fi
     if echo "$o" | grep -q "^VIOLATION"; then al="$al $p:[$(echo "$o" | grep -E '^(VIOLATED|UNDECIDED)' | awk '{print $2}' | sort -u | head -4 | tr '\n' ' ')]"; fi
   done
